@@ -2,6 +2,10 @@
 (`coverage.explanation`, `assumptions`).  The global trusted base (A1..A6, T1, T6, the VC generator itself) is added by
 the harness to every record."""
 
+ROUNDING = ("A2 is relaxed for get_concentration / parse_concentration / fill_to / _transfer in the rounding-placement "
+            "obligations (every internal rounding returns some number within half a unit of the 10th decimal; accuracy bounds "
+            "under a stated scale precondition: containers of at least 1 nL .. 1 uL, physical constants in 10..1000 g/mol and "
+            "0.5..3 g/mL); everywhere else A2 stands")
 SIGMA = ("Sigma-axioms: the weighted sums over a contents map (volume, mass, moles, activity) are uninterpreted functions "
          "WS_k(map) with the axioms WS_lin, WS_ext, WS_pos, WS_mono, WS_point; these are assumed in the SMT queries and "
          "proved separately for finitely supported maps in lemmas/Sigma.lean (Lean 4 + Mathlib)")
@@ -33,12 +37,12 @@ PER_PROPERTY = {
         'explanation': "container level: Container._transfer against the conservation contract on maps of arbitrary size "
                        "(loop invariants, weighted sums); plate level: dataflow obligations (linear, pairing) lifting "
                        "per-event conservation to Plate.transfer; aliasing cases (same container / same plate) included",
-        'assumptions': [SIGMA, CONVERT, FINITE, PLATE, PLATE_MOD, NUMPY],
+        'assumptions': [ROUNDING, SIGMA, CONVERT, FINITE, PLATE, PLATE_MOD, NUMPY],
     },
     'C02': {
         'explanation': "Container._transfer: the amount moved, measured in the unit of the request, equals the request and "
                        "every substance moves in the same ratio; plate level: one event per addressed pair (count)",
-        'assumptions': [SIGMA, CONVERT, FINITE, PLATE, PLATE_MOD, NUMPY],
+        'assumptions': [ROUNDING, SIGMA, CONVERT, FINITE, PLATE, PLATE_MOD, NUMPY],
     },
     'C03': {
         'explanation': "every state-producing container operation: non-negative amounts, volume within capacity, refusal of "
@@ -87,12 +91,12 @@ PER_PROPERTY = {
     'C10': {
         'explanation': "representation invariant volume = sum of per-substance volumes after every container operation; "
                        "get_volume / get_concentration against the abstraction; cached substance sets not corrupted (syntactic)",
-        'assumptions': [SIGMA, CONVERT, FINITE, MIX, SOLVE],
+        'assumptions': [ROUNDING, SIGMA, CONVERT, FINITE, MIX, SOLVE],
     },
     'C11': {
         'explanation': "fill_to: total quantity in the requested unit equals the target, only the solvent grows; dilute: "
                        "target concentration met by adding solvent only, refused when above the current concentration",
-        'assumptions': [SIGMA, CONVERT, FINITE, MIX, TOL],
+        'assumptions': [ROUNDING, SIGMA, CONVERT, FINITE, MIX, TOL],
     },
     'C12': {
         'explanation': "Container.create_solution_from: the new solution has the requested concentration and total, material "
@@ -132,7 +136,7 @@ PER_PROPERTY = {
     },
     'C13': {},
     'C14': {
-        'assumptions': ["strings: obligations are split per grammar shape / per path; z3 seq theory first, cvc5 --strings-exp "
+        'assumptions': [ROUNDING, "strings: obligations are split per grammar shape / per path; z3 seq theory first, cvc5 --strings-exp "
                         "on unknowns", "float(text) is the uninterpreted floatval(text) constrained by A3 on numerals "
                                        "of the grammar"],
     },
